@@ -106,6 +106,8 @@ void op_keygen(const Case& c, TaskCtx& t, Outcome& o) {
   bool exhausted = t.env.rng_exhausted;
   o.digest = digest_of(rc, 0, rc == 0 ? skser.data() : nullptr, rc == 0 ? skser.size() : 0);
   o.summary = "rc=" + std::to_string(rc) + " requests=" + std::to_string(t.env.rng_req) + " consumed=" + std::to_string(t.env.rng_pos);
+  if (G.solo_pass)
+    return; // the solo execution only supplies the result; oracle clauses are evaluated in the history run
   if (t.stats) {
     t.stats->hit("op.keygen");
     if (fired)
@@ -202,6 +204,8 @@ void op_lowmc(const Case& c, TaskCtx& t, Outcome& o) {
   bytes C(pkst.begin() + o0, pkst.begin() + o0 + p.ios), pt(pkst.begin() + o0 + p.ios, pkst.begin() + o0 + 2 * p.ios);
   o.digest = digest_of(rc, 0, pkst.data(), o0 + 2 * p.ios);
   o.summary = "rc=" + std::to_string(rc) + " C=" + model::hex(C).substr(0, 16);
+  if (G.solo_pass)
+    return; // the solo execution only supplies the result; oracle clauses are evaluated in the history run
   if (t.stats) {
     t.stats->hit("op.lowmc");
     t.stats->tuple(std::string("lowmc-") + std::to_string(p.n) + "-" + std::to_string(p.r) + "|" + family_tag(c) + "|surf" + std::to_string(surf) + "|" + c.s("kpat", "rand"));
@@ -285,6 +289,8 @@ void op_import(const Case& c, TaskCtx& t, Outcome& o) {
   bool expect = enabled && n >= size && padzero && (surf == 0 || pb == q);
   o.digest = digest_of(rc, 0, rc == 0 ? st.data() : nullptr, rc == 0 ? (surf == 1 ? size - 1 : size) : 0);
   o.summary = "rc=" + std::to_string(rc) + " pb=" + std::to_string(pb) + " n=" + std::to_string(n) + " expect=" + (expect ? "ok" : "reject");
+  if (G.solo_pass)
+    return; // the solo execution only supplies the result; oracle clauses are evaluated in the history run
   if (t.stats) {
     t.stats->hit("op.import");
     t.stats->tuple(std::string("import|") + (sk ? "sk" : "pk") + "|surf" + std::to_string(surf) + "|" + (pp ? pp->name : "invalid") + "|" + (n < size ? "short" : n == size ? "exact" : "long") +
@@ -347,6 +353,8 @@ void op_export(const Case& c, TaskCtx& t, Outcome& o) {
   });
   o.digest = digest_of(rc, 0, rc > 0 ? out.p : nullptr, rc > 0 ? std::min<size_t>((size_t)rc, cap) : 0);
   o.summary = "rc=" + std::to_string(rc) + " cap=" + std::to_string(cap) + " size=" + std::to_string(size);
+  if (G.solo_pass)
+    return; // the solo execution only supplies the result; oracle clauses are evaluated in the history run
   if (t.stats) {
     t.stats->hit("op.export");
     t.stats->hit(cap < size ? "c06.export_cap_below_size" : "c06.export_cap_sufficient");
@@ -383,6 +391,8 @@ void op_sizes(const Case& c, TaskCtx& t, Outcome& o) {
   f.str(name ? name : "(null)");
   o.digest = f.h;
   o.summary = "sig=" + std::to_string(ss) + " sk=" + std::to_string(sks) + " pk=" + std::to_string(pks);
+  if (G.solo_pass)
+    return; // the solo execution only supplies the result; oracle clauses are evaluated in the history run
   if (t.stats) {
     t.stats->hit("op.sizes");
     t.stats->tuple("sizes|" + std::to_string(pb) + "|" + (ss ? "enabled" : "refused"));
@@ -500,6 +510,8 @@ void op_nist(const Case& c, TaskCtx& t, Outcome& o) {
     }
     o.digest = digest_of(rcs[2], 0, keys[2].data(), keys[2].size());
     o.summary = "rc=" + std::to_string(rcs[0]) + "/" + std::to_string(rcs[1]) + "/" + std::to_string(rcs[2]);
+    if (G.solo_pass)
+      return; // the solo execution only supplies the result; oracle clauses are evaluated in the history run
     for (int s = 0; s < 3; s++)
       if (rcs[s] != -99 && rcs[s] != 0)
         FAIL_STOP("C16.keypair_failed", std::string(p.name) + ": key generation failed on surface " + std::to_string(s));
@@ -538,6 +550,8 @@ void op_nist(const Case& c, TaskCtx& t, Outcome& o) {
     skb.readonly(false);
     o.digest = digest_of(rc, smlen, rc == 0 ? sm.p : nullptr, rc == 0 ? (size_t)std::min<unsigned long long>(smlen, smcap) : 0);
     o.summary = "rc=" + std::to_string(rc) + " smlen=" + std::to_string(smlen) + " overlap=" + ov;
+    if (G.solo_pass)
+      return; // the solo execution only supplies the result; oracle clauses are evaluated in the history run
     if (t.stats)
       t.stats->tuple(std::string(p.name) + "|nist_sign|" + ov + "|" + (rc == 0 ? "ok" : "err"));
     if (rc != 0)
@@ -685,6 +699,8 @@ void op_nist(const Case& c, TaskCtx& t, Outcome& o) {
     pkb.readonly(false);
     o.digest = digest_of(rc, rc == 0 ? mlen : 0, rc == 0 ? mp : nullptr, rc == 0 ? (size_t)std::min<unsigned long long>(mlen, smlen) : 0);
     o.summary = "rc=" + std::to_string(rc) + " " + (intact ? "intact" : desc) + " overlap=" + ov;
+    if (G.solo_pass)
+      return; // the solo execution only supplies the result; oracle clauses are evaluated in the history run
     if (t.stats)
       t.stats->tuple(std::string(p.name) + "|nist_open|" + ff + "|" + ov + "|" + (rc == 0 ? "opened" : "refused"));
     if (ov == "disjoint" && memcmp(smb.p, frame.data(), smlen) != 0)
